@@ -90,6 +90,10 @@ class Prop(common.PropertyCheck):
     def gen_cases(self):
         rng = self.rng
         n = self.budget(10, 220)
+        # files whose events are grouped by subpopulation (concatenated acquisitions), more than 3000 events
+        for K, sz, order in ((7, 500, 'grouped'), (8, 430, 'grouped_desc')):
+            yield {'k': 'beads', 'K': K, 'nch': 2, 'sizes': [sz] * K, 'ratio': rng.uniform(2.5, 4.0), 'cv': rng.uniform(0.02, 0.05), 'blank': False, 'saturate': False,
+                   'unknown': [], 'stat': 'median', 'clust': 'all', 'names': 'sorted', 'mef_form': 'lists', 'seed': rng.randrange(1 << 30), 'stream': 'main', 'order': order}
         for i in range(n):
             K = rng.choice([6, 7, 8])
             equal = rng.random() < 0.6
